@@ -194,7 +194,8 @@ class Prop:
         try:
             t2 = cls.load(io.StringIO(text), file_meta=meta, **lkw)
         except Exception as e:  # noqa: BLE001
-            return None, [1, S.err_class(e)], [], meta
+            hashes, _names = S.failed_load_facts(lambda: cls.load(io.StringIO(text), **lkw))
+            return None, [1, S.err_class(e)], hashes, meta
         forest, hashes = S.obs_loaded_tree(t2)
         return t2, [0, [S.jv_sx(meta), forest]], hashes, meta
 
